@@ -7,7 +7,9 @@ import (
 	"fmt"
 	"sort"
 	"strings"
+	"sync"
 	"testing"
+	"time"
 
 	"github.com/pkg/errors"
 	"github.com/spikeekips/mitum/zzverif/vlib"
@@ -58,17 +60,39 @@ type c33obs struct {
 	prefCalls int
 	batchErr  error
 	cancelAt  int
+	mu        *sync.Mutex // only in the free-running -race pass (under vsched one thread runs at a time)
 }
 
 func (o *c33obs) tick() int { o.clock++; return o.clock }
 
-func c33build(c c33cfg) (vsched.Scenario, *c33obs) {
+func (o *c33obs) lock() {
+	if o.mu != nil {
+		o.mu.Lock()
+	}
+}
+
+func (o *c33obs) unlock() {
+	if o.mu != nil {
+		o.mu.Unlock()
+	}
+}
+
+func c33build(c c33cfg) (vsched.Scenario, *c33obs) { return c33buildMode(c, false) }
+
+func c33buildMode(c c33cfg, native bool) (vsched.Scenario, *c33obs) {
 	o := &c33obs{accepted: map[int]bool{}, newJobErr: map[int]error{}, starts: map[int][]int{}, ends: map[int][]int{},
 		raised: map[int]int{}, prefs: map[int]int{}}
+	if native {
+		o.mu = &sync.Mutex{}
+	}
 	jobErr := func(i int) error { return errors.Errorf("job-%d-failed", i) }
 	body := func(i int) error {
+		o.lock()
 		o.starts[i] = append(o.starts[i], o.tick())
+		o.unlock()
 		vsched.Point("job-body", nil)
+		o.lock()
+		defer o.unlock()
 		o.ends[i] = append(o.ends[i], o.tick())
 		if i == c.fail || i == c.fail2 {
 			o.raised[i] = o.tick()
@@ -81,6 +105,8 @@ func c33build(c c33cfg) (vsched.Scenario, *c33obs) {
 		roots = append(roots, func() {
 			o.batchErr = BatchWork(context.Background(), c.size, c.limit,
 				func(_ context.Context, last uint64) error {
+					o.lock()
+					defer o.unlock()
 					o.prefs[int(last)] = o.tick()
 					o.prefCalls++
 					if c.failPref >= 0 && o.prefCalls-1 == c.failPref {
@@ -89,13 +115,17 @@ func c33build(c c33cfg) (vsched.Scenario, *c33obs) {
 					return nil
 				},
 				func(_ context.Context, i, last uint64) error {
+					o.lock()
 					if _, ok := o.prefs[int(last)]; !ok {
 						o.errcb = append(o.errcb, fmt.Sprintf("job %d ran before pref(%d)", i, last))
 					}
+					o.unlock()
 					return body(int(i))
 				})
+			o.lock()
 			o.waited = true
 			o.waitRet = o.tick()
+			o.unlock()
 		})
 		return c33scenario(c, o, roots), o
 	}
@@ -103,7 +133,7 @@ func c33build(c c33cfg) (vsched.Scenario, *c33obs) {
 	var wk *BaseJobWorker
 	var err error
 	if c.kind == "errcb" {
-		wk, err = NewErrCallbackJobWorker(pctx, c.sem, func(e error) { o.errcb = append(o.errcb, e.Error()) })
+		wk, err = NewErrCallbackJobWorker(pctx, c.sem, func(e error) { o.lock(); o.errcb = append(o.errcb, e.Error()); o.unlock() })
 	} else {
 		wk, err = NewBaseJobWorker(pctx, c.sem)
 	}
@@ -114,28 +144,37 @@ func c33build(c c33cfg) (vsched.Scenario, *c33obs) {
 		for i := 0; i < c.jobs; i++ {
 			i := i
 			e := wk.NewJob(func(context.Context, uint64) error { return body(i) })
+			o.lock()
 			if e == nil {
 				o.accepted[i] = true
 			} else {
 				o.newJobErr[i] = e
 			}
+			o.unlock()
 		}
 		wk.Done()
-		o.waitErr = wk.Wait()
+		werr := wk.Wait()
+		o.lock()
+		o.waitErr = werr
 		o.waited = true
 		o.waitRet = o.tick()
+		o.unlock()
 	})
 	switch c.cancel {
 	case "close":
 		roots = append(roots, func() {
 			vsched.Point("canceller", nil)
+			o.lock()
 			o.cancelAt = o.tick()
+			o.unlock()
 			wk.Close()
 		})
 	case "parent":
 		roots = append(roots, func() {
 			vsched.Point("canceller", nil)
+			o.lock()
 			o.cancelAt = o.tick()
+			o.unlock()
 			pcancel()
 		})
 	}
@@ -365,4 +404,40 @@ func TestVerifC33(t *testing.T) {
 		}
 		r.Sample(map[string]any{"scenario": id, "executions": res.Executions, "distinct_outcomes": len(res.Outcomes)})
 	}
+}
+
+// TestVerifC33Race is the free-running pass of the same scenario bodies under
+// `go test -race` (thorough tier only): it checks the assumption that
+// synchronisation operations are the only interaction points of worker.go and
+// the semaphore. It never decides the property.
+func TestVerifC33Race(t *testing.T) {
+	r := vlib.Start("C33")
+	defer r.Finish()
+	n := 0
+	for _, kind := range []string{"base", "errcb"} {
+		for sem := int64(1); sem <= 3; sem++ {
+			for _, cancel := range []string{"", "close", "parent"} {
+				for fail := -1; fail < 3; fail++ {
+					c := c33cfg{kind: kind, sem: sem, jobs: 3, fail: fail, fail2: -1, cancel: cancel}
+					for rep := 0; rep < 30; rep++ {
+						sc, _ := c33buildMode(c, true)
+						if !vsched.RunNative(20*time.Second, sc.Roots...) {
+							t.Fatalf("free-running scenario %s did not finish", c.id())
+						}
+						n++
+					}
+				}
+			}
+		}
+	}
+	for size := int64(1); size <= 6; size++ {
+		for limit := int64(1); limit <= size+1; limit++ {
+			for rep := 0; rep < 20; rep++ {
+				sc, _ := c33buildMode(c33cfg{kind: "batch", size: size, limit: limit, fail: -1, fail2: -1, failPref: -1}, true)
+				vsched.RunNative(20*time.Second, sc.Roots...)
+				n++
+			}
+		}
+	}
+	r.Add("race_pass_free_running_executions", int64(n))
 }
